@@ -5,11 +5,14 @@ package main
 import (
 	"bytes"
 	"context"
+	"encoding/json"
 	"fmt"
 	"go/types"
 	"os"
 	"os/exec"
 	"path/filepath"
+	"runtime"
+	"strconv"
 	"strings"
 	"sync"
 	"sync/atomic"
@@ -274,6 +277,35 @@ type solverDef struct {
 	name string
 	args func(file string, tmo time.Duration) []string
 	weak bool // runs with part of a theory switched off: its `unsat` is valid, its `sat` is not believed
+	// prep, when set, rewrites the query before this configuration sees it. It may only DROP assumptions
+	// (`unsat` of a subset of the assertions is `unsat` of all of them), so such a configuration is weak.
+	prep func(query string) string
+}
+
+// dropAssumptions removes the one-line assertions for which drop says so (removing a conjunct of the negated goal
+// is as sound as removing an assumption: the remaining set is a subset).
+func dropAssumptions(query string, drop func(line string) bool) string {
+	lines := strings.Split(query, "\n")
+	out := lines[:0:0]
+	for _, l := range lines {
+		if strings.HasPrefix(l, "(assert ") {
+			if drop(l) {
+				continue
+			}
+		}
+		out = append(out, l)
+	}
+	return strings.Join(out, "\n")
+}
+
+// Recursive data-structure invariants (a tree's treeOK, a list's chain) are nested quantifiers that unfold without
+// end; a caller that only hands the structure on to a callee does not need them to prove facts about its own
+// locals. These two configurations try the obligation without them.
+func prepFlat(q string) string {
+	return dropAssumptions(q, func(l string) bool { return strings.Count(l, "(forall") >= 2 })
+}
+func prepNoGhostQ(q string) string {
+	return dropAssumptions(q, func(l string) bool { return strings.Contains(l, "(forall") && strings.Contains(l, "$ghost") })
 }
 
 func z3cfg(bin string, opts ...string) func(string, time.Duration) []string {
@@ -308,9 +340,20 @@ var solvers = []solverDef{
 	// extensionality axioms. Dropping axioms keeps `unsat` valid; a `sat` from these is recorded as unknown.
 	{name: "z3-new/noext", args: z3cfg("z3-new", "smt.array.extensional=false"), weak: true},
 	{name: "z3/noext", args: z3cfg("z3", "smt.array.extensional=false"), weak: true},
+	{name: "z3-new/flat", args: z3cfg("z3-new"), weak: true, prep: prepFlat},
+	{name: "z3-new/noghostq", args: z3cfg("z3-new"), weak: true, prep: prepNoGhostQ},
 }
 
 func runOne(ctx context.Context, sd solverDef, file string, tmo time.Duration) (status, output string, secs float64) {
+	if sd.prep != nil {
+		if b, err := os.ReadFile(file); err == nil {
+			pf := strings.TrimSuffix(file, ".smt2") + "." + sanitize(sd.name) + ".smt2"
+			if os.WriteFile(pf, []byte(sd.prep(string(b))), 0o644) == nil {
+				defer os.Remove(pf)
+				file = pf
+			}
+		}
+	}
 	a := sd.args(file, tmo)
 	cctx, cancel := context.WithTimeout(ctx, tmo+2*time.Second)
 	defer cancel()
@@ -405,10 +448,69 @@ func solveStage2(file string, res SolverResult, tmo time.Duration) SolverResult 
 	return res
 }
 
-// solveAll discharges a list of obligations: stage 1 for all of them in parallel, stage 2 for the rest, two at a time.
+// solverHint records which configuration decided an obligation on an earlier run (solver_hints.json, committed,
+// written only by GOVC_LEARN=1 runs): that configuration is tried alone before the race. A hint is an ordering of
+// the portfolio, never an answer: the obligation is still decided by the solver on this run's query.
+type solverHint struct {
+	Solver string  `json:"solver"`
+	Secs   float64 `json:"secs"`
+}
+
+var (
+	hintsOnce sync.Once
+	hints     map[string]solverHint
+)
+
+func loadHints() map[string]solverHint {
+	hintsOnce.Do(func() {
+		hints = map[string]solverHint{}
+		if b, err := os.ReadFile(filepath.Join(verifDir, "solver_hints.json")); err == nil {
+			json.Unmarshal(b, &hints)
+		}
+	})
+	return hints
+}
+
+func solverByName(n string) *solverDef {
+	for i := range solvers {
+		if solvers[i].name == n {
+			return &solvers[i]
+		}
+	}
+	return nil
+}
+
+// loadFactor stretches the timeouts when the machine is busy with something else (several checks started at
+// once): a proof that needs 9 s of CPU does not finish in 20 s of wall time on a sixth of a core.
+func loadFactor() float64 {
+	b, err := os.ReadFile("/proc/loadavg")
+	if err != nil {
+		return 1
+	}
+	f := strings.Fields(string(b))
+	if len(f) == 0 {
+		return 1
+	}
+	l, _ := strconv.ParseFloat(f[0], 64)
+	x := l / float64(maxInt(1, runtime.NumCPU()))
+	if x < 1 {
+		return 1
+	}
+	if x > 3 {
+		return 3
+	}
+	return x
+}
+
+// solveAll discharges a list of obligations: stage 1 (first configuration, 2 s) for all of them in parallel; then the
+// configuration that decided the obligation on an earlier run, alone; then the race of all configurations, two
+// obligations at a time; then, for the first few still undecided, the race once more with three times the time and
+// nothing else running (a timeout under load is not a verdict).
 func solveAll(dir string, obls []*Obligation, tmo time.Duration) {
+	lf := loadFactor()
+	tmo = time.Duration(float64(tmo) * lf)
 	files := make([]string, len(obls))
-	stage1 := 2 * time.Second
+	stage1 := time.Duration(float64(2*time.Second) * lf)
 	if tmo < stage1 {
 		stage1 = tmo
 	}
@@ -427,14 +529,73 @@ func solveAll(dir string, obls []*Obligation, tmo time.Duration) {
 		}
 		hard = append(hard, i)
 	}
-	parallelDo(2, len(hard), func(k int) {
+	// hinted configuration alone
+	hs := loadHints()
+	parallelDo(7, len(hard), func(k int) {
 		i := hard[k]
+		h, ok := hs[obls[i].Name]
+		sd := solverByName(h.Solver)
+		if !ok || sd == nil {
+			return
+		}
+		t := time.Duration((4*h.Secs+3)*lf) * time.Second
+		if t > tmo {
+			t = tmo
+		}
+		st, out, secs := runOne(context.Background(), *sd, files[i], t)
+		obls[i].Result.All[sd.name+"(hint)"] = fmt.Sprintf("%s %.2fs", st, secs)
+		if st == "unsat" {
+			obls[i].Result.Status, obls[i].Result.Solver, obls[i].Result.Seconds, obls[i].Result.Output = st, sd.name, secs, out
+			os.Remove(files[i])
+		}
+	})
+	var rest []int
+	for _, i := range hard {
+		if obls[i].Result.Status != "unsat" {
+			rest = append(rest, i)
+		}
+	}
+	parallelDo(2, len(rest), func(k int) {
+		i := rest[k]
 		t := tmo
 		if obls[i].Finding != nil {
 			t = tmo / 4 // expected to fail (known finding): the decisive query is the one outside the region
 		}
 		obls[i].Result = solveStage2(files[i], obls[i].Result, t)
 	})
+	retried := 0
+	for _, i := range rest {
+		o := obls[i]
+		if o.Finding != nil || (o.Result.Status != "timeout" && o.Result.Status != "unknown") || retried >= 3 {
+			continue
+		}
+		if _, err := os.Stat(files[i]); err != nil {
+			continue
+		}
+		retried++
+		o.Result = solveStage2(files[i], o.Result, 3*tmo)
+	}
+	if os.Getenv("GOVC_LEARN") != "" {
+		learnHints(obls, hard)
+	}
+}
+
+// learnHints merges the winners of this run into solver_hints.json (development aid; registered checks never set
+// GOVC_LEARN).
+func learnHints(obls []*Obligation, hard []int) {
+	path := filepath.Join(verifDir, "solver_hints.json")
+	cur := map[string]solverHint{}
+	if b, err := os.ReadFile(path); err == nil {
+		json.Unmarshal(b, &cur)
+	}
+	for _, i := range hard {
+		o := obls[i]
+		if o.Result.Status == "unsat" && o.Result.Solver != "" {
+			cur[o.Name] = solverHint{Solver: o.Result.Solver, Secs: round3(o.Result.Seconds)}
+		}
+	}
+	b, _ := json.MarshalIndent(cur, "", " ")
+	os.WriteFile(path, append(b, '\n'), 0o644)
 }
 
 // solve: one query, both stages (used for the region re-checks).
